@@ -18,6 +18,22 @@ import (
 type ssaFunction = ssa.Function
 
 // termSpec: a function without branches whose result must be one term.
+// termSpecAny: like termSpec with several equivalent renderings of the one specified term.
+func termSpecAny(pkg, fn string, opaque []string, wants ...string) *edt.Spec {
+	return &edt.Spec{
+		Pkg: pkg, Func: fn, Opaque: opaque, MinPaths: 1, Vars: map[string]string{},
+		Classify: func(p *edt.Path, out string, e *edt.Env) string {
+			for _, w := range wants {
+				if out == w {
+					return "as-specified"
+				}
+			}
+			return ""
+		},
+		Formula: map[string]func(e *edt.Env) edt.Tri{"as-specified": always},
+	}
+}
+
 func termSpec(pkg, fn string, opaque []string, want string) *edt.Spec {
 	return &edt.Spec{
 		Pkg: pkg, Func: fn, Opaque: opaque, MinPaths: 1, Vars: map[string]string{},
